@@ -156,14 +156,16 @@ class C15(Cfg):
     technique = ("Lean 4 induction over version sequences on an AST-level model of DataModel::update/Entity::update and of the "
                  "load/update/persist cycle of graph_database.rs + correspondence run against the real DataModel and real "
                  "GraphDatabaseService instances holding data + constants regenerated from system_entities.rs (T6)")
-    level_text = ("Theorems (Lean 4, every sequence of versions, every hash-map visit order, no size bound) about an AST-level model of "
-                  "data_model_parser.rs: for the intended behaviour (Defects.none) short ids of existing namespaces/entities/fields never change, are pairwise "
-                  "distinct, equal the positions in the last accepted text (hence depend on the accepted versions only and peers agree), stored values read "
-                  "back unchanged through the short id and new fields read default/null, a refused version returns the model unchanged, re-applying the accepted "
-                  "text changes nothing. For the code as implemented the same is proved only under the guard 'at most one new field per existing entity and the "
-                  "version is accepted' (C15_partial); C15_breaks_hashOrderIds and C15_breaks_partialRefusal are decide-checked witnesses that the full statement "
-                  "fails (both confirmed on the real code by replays in corpus/C15). The hard-coded *_SHORT constants of system_entities.rs are proved equal to the "
-                  "positional ids of SYSTEM_DATA_MODEL on a table regenerated from the source on every run. "
+    level_text = ("Theorems (Lean 4, every history of versions, every hash-map visit order, no size bound) about an AST-level model of "
+                  "data_model_parser.rs and of the load/update/persist cycle of graph_database.rs: short ids of existing namespaces/entities/fields never change "
+                  "(any defects), are pairwise distinct, equal the positions in the last accepted text (hence depend on the accepted versions only and peers with "
+                  "different pasts agree), stored values read back unchanged through the short id and new fields read default/null, a refused version returns the "
+                  "model unchanged (also at instance level), re-applying the accepted text changes nothing and an instance restarts on its own model. These are "
+                  "proved for Defects.none = Defects.asImplemented: the two deviations this check found (ids of several new fields in hash-map order; refused version "
+                  "partially applied and reported Ok) were confirmed on the real code and fixed in /repo (e35fd01, fb21964). C15_breaks_hashOrderIds and "
+                  "C15_breaks_partialRefusal are decide-checked witnesses of what either defect does (the replays in corpus/C15 show the same on the real code when a "
+                  "fix is reverted); C15_partial covers the pre-fix code under the guard 'accepted and at most one new field per existing entity'. The hard-coded "
+                  "*_SHORT constants of system_entities.rs are proved equal to the positional ids of SYSTEM_DATA_MODEL on a table regenerated from the source on every run. "
                   "Tie: the real DataModel::update/update_system and real GraphDatabaseService instances (start, run-time update through the actor message and "
                   "through the public API, restart on the same text, rows written and read back) are run on generated version sequences (valid edits, every kind of "
                   "invalid edit, versions valid for some entities and invalid for others, versions built on refused ones); the serialised id tables, error classes and "
@@ -213,7 +215,7 @@ class C15(Cfg):
 
     def streams(self, tier, seed, work, dv):
         res = []
-        plan = [("dm", 1500, 1), ("db", 60, 3)] if tier == "quick" else [("dm", 40000, 1), ("db", 500, 10)]
+        plan = [("dm", 1200, 1), ("db", 45, 3)] if tier == "quick" else [("dm", 40000, 1), ("db", 500, 10)]
         for kind, n, parts in plan:
             for p in range(parts):
                 path = os.path.join(work, "%s_%d.ops" % (kind, p))
